@@ -30,7 +30,10 @@ def run(tier, replay=None):
     res.assumptions = ["Open MPI / Boost.MPI collective semantics (a collective completes iff all ranks enter it; reduce with a commutative operator may combine in any tree) — trusted",
                        "per-rank heap layouts are sampled by the perturbation, not enumerated; after the repair the enumeration order of the signed edges is the ForestIndex order, which no layout can change (c04_pairs_same_order)"]
     lean_ok = lean_gate(res, "Parmcb.Props.C04", THEOREMS)
-    binary, log = compile_harness("h_mpi.cpp", cxx="mpic++", libs=("-ltbb", "-lboost_timer", "-lboost_mpi", "-lboost_serialization"))
+    # the TBB regions inside every rank run under the deterministic stand-in (seeded per rank): reproducible, and
+    # rank 0's support initialisation order is observable for the trace validation
+    binary, log = compile_harness("h_mpi.cpp", cxx="mpic++", flags=("-DPARMCB_SHIM",), pre_includes=(os.path.join(VERIF, "harness", "tbbshim"),),
+                                  libs=("-lboost_timer", "-lboost_mpi", "-lboost_serialization"))
     if binary is None:
         res.violation("MPI harness does not compile against the working tree", {"kind": "compile", "log": log[-3000:]}, found=False)
         return res.finish()
